@@ -594,7 +594,11 @@ def _run(ctx, tier, kind, work, phase, t0):
     # a timeout is re-run once, with twice the limit and a quarter of the parallelism (so that the
     # load this check itself produces cannot make a slow run look like a hang), before it counts
     late = [j for j in jobs if j.res["timed_out"]]
-    run.pmap(lambda j: execute(j, kind, scale=2), late, workers=max(2, NCPU // 4))
+    first = late[:32]
+    run.pmap(lambda j: execute(j, kind, scale=2), first, workers=max(2, NCPU // 4))
+    if len(late) > len(first) and not all(j.res["timed_out"] for j in first):
+        run.pmap(lambda j: execute(j, kind, scale=2), late[len(first):], workers=max(2, NCPU // 4))
+    # (when the first 32 time out again the hang is systematic: the rest keep their first verdict)
     ctx.notes["timeouts_first_pass"] = len(late)
     phase["runs"] = round(time.time() - t1, 1)
     bad, good = [], []
